@@ -19,8 +19,11 @@ def probe(dictionary, k, with_user, wd):
             return ["the server does not accept connections"]
         st, r = s.call("GetCandidates", {"input": "くるまで"}, timeout=10)
         if st != "ok" or not r.get("candidates"):
-            failed.append(f"GetCandidates is not answered within 3 s ({st})")
+            failed.append(f"GetCandidates is not answered within 10 s ({st})")
             return failed
+        # the same service whatever the configuration: 40 further conversions do not disturb the first one's session
+        for _ in range(40):
+            s.call("GetCandidates", {"input": "くるま"}, timeout=10)
         st2, _ = s.call("UpdateFrequency", {"session_id": r["session_id"], "candidate_id": "0"}, timeout=10)
         st3, _ = s.call("RegisterWord", {"kind": "CommonNoun", "reading": "あいう", "word": "亜以宇"}, timeout=10)
         ok, d = s.quiesce(10.0)
